@@ -8,7 +8,7 @@ must equal those of SOME one-at-a-time execution that respects real-time order â
 every candidate order through the sequential Lean hub model (`serve`), i.e. a linearizability check
 against the model.  C10 adds kills of a server at a random step and Puts with wrong hash / short content.
 """
-import itertools, os, select, signal, struct, subprocess, time
+import itertools, os, re, select, signal, struct, subprocess, time
 from bbox import Sandbox, Rng, blake3_hex, hexs, CLI_BIN
 import bb_hub as H
 import bb_gate as G
@@ -100,6 +100,10 @@ def gen_ops(rng, tree, pid, path=None):
     ops = []
     for _ in range(rng.range(1, 2)):
         p = path or rng.pick(PATHS)
+        if path is None and rng.coin(1, 8):
+            # a path that is exactly the conflict-copy name some Put of this run may be landed on (D13): what a client
+            # commits there is committed content like any other and must not be replaced by a conflict copy
+            p = f"{rng.pick(PATHS)}.conflict-{blake3_hex([rng.pick(CONTENTS)])[0][:12]}"
         r = rng.below(10)
         cur = tree.get(p)
         curh = bytes.fromhex(blake3_hex([cur])[0]) if cur is not None else None
@@ -169,8 +173,10 @@ def solo_conformance(op, pr, pre_tree, rep):
             t = "read"
         elif call == f"rename {tmp} -> {p}":
             t = "commit"
-        elif op["kind"] == "put" and call == f"rename {tmp} -> {p}.conflict-{bytes(op['hash']).hex()[:12]}":
+        elif op["kind"] == "put" and re.fullmatch(re.escape(f"rename {tmp} -> {p}.conflict-{bytes(op['hash']).hex()[:12]}") + r"(-\d+)?", call):
             t = "conflict"
+        elif op["kind"] == "put" and (call.startswith(f"stat {p}.conflict-") or (call.startswith(f"open {p}.conflict-") and call.endswith(" R"))):
+            continue          # probing candidate conflict-copy names (free, or already these bytes?) under the lock: reads only
         elif call == f"unlink {tmp}":
             t = "discard"
         elif call == f"unlink {p}":
